@@ -107,7 +107,7 @@ def abstract_sets(rng, quick):
     """-> {name: (TS, [decomposition literals])} for SpecPaste, and the SpecPar families."""
     fam = {}
     # every two-input decomposition up to 3 x 3 (quick: 3 x 2), disagreeing values (LastWins names the input) ...
-    tiny = tiny_decomps(3, 2 if quick else 3)
+    tiny = tiny_decomps(3, 2) if quick else tiny_decomps(4, 3)
     lits = [decomp_lit(W, H, s, False, rng.randint(-5, 9), rng.randint(-5, 9)) for (W, H, s) in tiny]
     # ... and agreeing ones (OrderIndependent) for a third of them
     lits += [decomp_lit(W, H, s, True, rng.randint(-5, 9), rng.randint(-5, 9)) for (W, H, s) in tiny[::3]]
@@ -784,7 +784,7 @@ def run(ctx):
     warnings.simplefilter("ignore")
     import filelock
     rng, quick = ctx.rng, ctx.quick
-    ctx.rule = ("abstract: TLC explores SpecPaste over every two-input decomposition of mosaics up to 3 x 3 at tile size 2 plus seeded "
+    ctx.rule = ("abstract: TLC explores SpecPaste over every two-input decomposition of mosaics up to 3 x 2 (thorough: 4 x 3) at tile size 2 plus seeded "
                 "decompositions (2-4 inputs, undefined borders and holes, tile sizes 2-4) x every storage-parity assignment x both tile "
                 "parities x every input order, and SpecPar over all interleavings of 2 workers; real: seeded and critical-size "
                 "decompositions are handed to TLC, which evaluates the TS = 256 operators and theorems for exactly those file sets; each "
@@ -833,8 +833,8 @@ def run(ctx):
                                              cfg_text=PAR_CFG % (3, "TRUE", "TRUE", "PROPERTY Returns"), workers=6, timeout=7200))
     ctx.note("abstract_models", {n: {"TS": v[0], "decompositions": len(v[1])} for n, v in fam.items()})
     if not real_only:
-        ctx.note("abstract_exhaustive_part", "every decomposition of every mosaic up to 3 x %d into two border-free sub-images (%d), x 4 storage-parity "
-                 "assignments x 2 tile parities x both orders" % (2 if quick else 3, fam["tiny-ts2"][2]))
+        ctx.note("abstract_exhaustive_part", "every decomposition of every mosaic up to %s into two border-free sub-images (%d), x 4 storage-parity "
+                 "assignments x 2 tile parities x both orders" % ("3 x 2" if quick else "4 x 3", fam["tiny-ts2"][2]))
 
     # wait for the TS = 256 expectations only
     bg.threads[0].join()
